@@ -1,6 +1,7 @@
 import Psa.JsonIO
 import Psa.Render
 import Psa.Eval
+import Psa.RegistrySpec
 import Psa.Generated.Tables
 /-! psa-driver: one JSON object per input line, one JSON object per output line. -/
 open Lean PSA PSA.IO
@@ -62,8 +63,10 @@ def handle (j : Json) : R Json := do
     if !valid then return Json.mkObj [("valid", Json.bool false)]
     let reg := populate cs
     let qs ← arrOf (fun q => do return (← level (← fld q "level"), ← ver (← fld q "version"))) (fldD j "queries")
+    let nums (l : List Nat) : Json := Json.arr (l.map (fun (n : Nat) => Json.num (n : JsonNumber))).toArray
     return Json.mkObj [("valid", Json.bool true),
-      ("results", Json.arr (qs.map (fun q => Json.arr ((reg.evaluate q.1 q.2).map (fun (n : Nat) => Json.num (n : JsonNumber))).toArray)).toArray)]
+      ("results", Json.arr (qs.map (fun q => nums (reg.evaluate q.1 q.2))).toArray),
+      ("spec", Json.arr (qs.map (fun q => nums (spec cs q.1 (clampV reg.maxVersion.minor q.2)))).toArray)]
   | _ => throw s!"unknown op {op}"
 
 partial def loop (hin hout : IO.FS.Stream) : IO Unit := do
